@@ -144,6 +144,14 @@ func runC29(c *core.Ctx) {
 				waited = true
 			}
 		}
+		// the write is done by a helper that is handed the key: the helper may wait itself
+		if a.Raw != nil {
+			for _, s := range core.Sites(a.Raw.Fn) {
+				if s.Callee == "(*sync.WaitGroup).Wait" && strings.HasSuffix(core.Path(s.Recv()), ".WG") && core.Dominates(s.Instr, a.Raw.Instr) {
+					waited = true
+				}
+			}
+		}
 		c.Check(waited, "C29.wg", "write:"+a.Fn.Name()+"/"+a.Key, a.Site.Pos(), "store write is preceded by WG.Wait()", "AppDB store write without waiting for a running snapshot: the snapshot of height h could contain records of h+1")
 	}
 	c.Floor("C29.wg", nW, 7, "AppDB store writes outside Restore")
@@ -426,14 +434,14 @@ func loaderStores(c *core.Ctx, f *appDBFacts, d string) map[*ssa.Function]ssa.In
 				case *ssa.Store:
 					addr, val = x.Addr, x.Val
 				case *ssa.Call:
-					n := core.CalleeName(&x.Call)
-					if strings.HasPrefix(n, "sync/atomic.Store") && len(x.Call.Args) == 2 {
-						addr, val = x.Call.Args[0], x.Call.Args[1]
-					} else if len(x.Call.Args) >= 2 && (strings.HasSuffix(n, ".Unmarshal") || strings.HasSuffix(n, ".DecodeBytes")) {
-						addr, val = core.Unwrap(x.Call.Args[1]), x.Call.Args[0]
+					n := core.CalleeName(core.NormCall(&x.Call))
+					if strings.HasPrefix(n, "sync/atomic.Store") && len(core.NormCall(&x.Call).Args) == 2 {
+						addr, val = core.NormCall(&x.Call).Args[0], core.NormCall(&x.Call).Args[1]
+					} else if len(core.NormCall(&x.Call).Args) >= 2 && (strings.HasSuffix(n, ".Unmarshal") || strings.HasSuffix(n, ".DecodeBytes")) {
+						addr, val = core.Unwrap(core.NormCall(&x.Call).Args[1]), core.NormCall(&x.Call).Args[0]
 						if _, isFA := addr.(*ssa.FieldAddr); !isFA {
 							// DecodeBytes(result, appDB.price): the pointer loaded from the field
-							if dependsOnAppField(x.Call.Args[1], d) {
+							if dependsOnAppField(core.NormCall(&x.Call).Args[1], d) {
 								for _, g := range gets {
 									gv := g.Site.Value()
 									if gv != nil && core.DependsOn(val, func(v ssa.Value) bool { return v == gv }) {
@@ -474,15 +482,15 @@ func (f *appDBFacts) fillThroughParam(h *ssa.Function, p *ssa.Parameter, depth i
 			case *ssa.Store:
 				addr, val = x.Addr, x.Val
 			case *ssa.Call:
-				n := core.CalleeName(&x.Call)
+				n := core.CalleeName(core.NormCall(&x.Call))
 				switch {
-				case strings.HasPrefix(n, "sync/atomic.Store") && len(x.Call.Args) == 2:
-					addr, val = x.Call.Args[0], x.Call.Args[1]
-				case len(x.Call.Args) >= 2 && (strings.HasSuffix(n, ".Unmarshal") || strings.HasSuffix(n, ".DecodeBytes")):
-					addr, val = x.Call.Args[1], x.Call.Args[0]
+				case strings.HasPrefix(n, "sync/atomic.Store") && len(core.NormCall(&x.Call).Args) == 2:
+					addr, val = core.NormCall(&x.Call).Args[0], core.NormCall(&x.Call).Args[1]
+				case len(core.NormCall(&x.Call).Args) >= 2 && (strings.HasSuffix(n, ".Unmarshal") || strings.HasSuffix(n, ".DecodeBytes")):
+					addr, val = core.NormCall(&x.Call).Args[1], core.NormCall(&x.Call).Args[0]
 				default:
 					if g := x.Call.StaticCallee(); g != nil && core.PkgOf(g) == pkgAppDB {
-						for j, a := range x.Call.Args {
+						for j, a := range core.NormCall(&x.Call).Args {
 							if core.Unwrap(a) == ssa.Value(p) && j < len(g.Params) {
 								if r := f.fillThroughParam(g, g.Params[j], depth+1); r != nil {
 									return r
@@ -640,7 +648,7 @@ func leafPaths(al *ssa.Alloc, target ssa.Instruction, tb *ssa.BasicBlock, fromEn
 			return true
 		case *ssa.Call:
 			if b, ok := x.Call.Value.(*ssa.Builtin); ok && b.Name() == "append" {
-				return definitelyNonNil(x.Call.Args[0], st, d+1)
+				return definitelyNonNil(core.NormCall(&x.Call).Args[0], st, d+1)
 			}
 		case *ssa.Phi:
 			for _, e := range x.Edges {
